@@ -2,6 +2,7 @@
  *
  *   script o<k> <key> <ops>   store a heart_beat script in /c11/reg (read back by the LPC objects)
  *   do o<k> <op>              apply do_op(<op>) in o<k>            (top-level operation)
+ *   tflags <n>                MAIN_OPTION (timer_flags) = n (bit TIMER_FLAG_HEARTBEAT decides whether a tick runs a round)
  *   tick                      one timer tick: the real call_heart_beat() through the hook verif_tick(),
  *                             wrapped in the same error recovery as backend() (save_context / setjmp /
  *                             restore_context), so an error in a heart_beat abandons the round as in the real loop
@@ -101,7 +102,11 @@ static void c11_tick (void)
 {
   error_context_t econ;
   c11_ticks++;
-  vh_out ("tickbegin");
+  /* the harness echoes the configuration it set itself: without TIMER_FLAG_HEARTBEAT no round is expected */
+  if (MAIN_OPTION (timer_flags) & TIMER_FLAG_HEARTBEAT)
+    vh_out ("tickbegin");
+  else
+    vh_out ("tickbegin off");
   /* top of the backend() loop */
   current_interactive = 0;
   eval_cost = CONFIG_INT (__MAX_EVAL_COST__);
@@ -126,6 +131,15 @@ static int c11_cmd (char *line)
   if (!strcmp (line, "tick"))
     {
       c11_tick ();
+      return 1;
+    }
+  if (!strncmp (line, "tflags ", 7))
+    {
+      int n = atoi (line + 7);
+      if (n < 0 || n > 7)
+        return 0;
+      MAIN_OPTION (timer_flags) = n;
+      vh_out ("tflags %d", n);
       return 1;
     }
   if (!strncmp (line, "script ", 7))
